@@ -1,0 +1,18 @@
+//go:build verif
+
+package network
+
+// VerifConnCount returns the number of connections currently registered in
+// the router's table (all remote identities). Read-only accessor for the C17
+// correspondence harness of /verif: it lets the harness wait until every
+// connection a peer router opened has been closed by the remote server before
+// it issues the next operation of a history.
+func (r *Router) VerifConnCount() int {
+	r.Lock()
+	defer r.Unlock()
+	n := 0
+	for _, arr := range r.connections {
+		n += len(arr)
+	}
+	return n
+}
